@@ -556,6 +556,21 @@ let cmd_conc (file : string) : unit =
                | None -> ()
                | Some _ -> mismatch (Printf.sprintf "line `%s`: model says thread %d is enabled" l i))
             end
+            else if obs_name = "blocked" && pc_before = Conc.CGrow1
+                    && L.exists (fun j -> j <> i && (L.nth saved.Conc.threads j).Conc.t_pc = Conc.RStart) !blocked then begin
+              (* the writer waits for the mmap write lock and readers wait behind it; when the lock is released the RwLock
+                 may admit the waiting readers before the waiting writer (both are schedules of the model: a reader at RStart
+                 is enabled whenever no writer HOLDS the lock). The readers run on by themselves; they stay in `blocked` and
+                 are caught up when the controller sees them again. *)
+              st := saved;
+              L.iter (fun j ->
+                if j <> i && (thread_of j).Conc.t_pc = Conc.RStart then
+                  (match Conc.step !atomic !st (nat_of_int j) with Some s' -> st := s' | None -> ())) !blocked;
+              blocked := i :: !blocked;
+              (match Conc.step !atomic !st (nat_of_int i) with
+               | None -> ()
+               | Some _ -> mismatch (Printf.sprintf "line `%s`: model says thread %d is enabled" l i))
+            end
             else mismatch (Printf.sprintf "line `%s`: model says thread %d reaches `%s`" l i m)
           end else begin
             let t = thread_of i in
